@@ -183,6 +183,7 @@ def self_check():
 
 IDS = ["b", "a", "c"]  # "b" first: a joint cohort needs at least one observed event
 XI_ALPHABET = [0.0, -1.0, 0.4, 2.0]
+XI_EXTREME = [[6.0, -5.5, 0.3], [5.5, 5.9, 6.3]]
 TAUS = [[60.0, 66.0, 72.5], [70.0, 70.0, 70.0]]
 # sources: alternative 0 has an exactly zero overall mean for every (n, ns) block, alternative 1 has not
 SRC3 = [[-1.5, 1.0, 0.5], [0.0, 0.5, -0.5], [1.5, -1.5, 0.0]]
@@ -274,7 +275,11 @@ def gauge_cases(spec, tier):
                     for dtype in ("f32", "f64"):
                         if dtype == "f64" and not (spec["kind"] in f64_kinds and (base or tier == "thorough")):
                             continue
-                        for xi in itertools.product(XI_ALPHABET, repeat=n):
+                        xis = list(itertools.product(XI_ALPHABET, repeat=n))
+                        if base and tau_i == 0 and dtype == "f32":
+                            # very fast / very slow progressors (|xi| > 5): velocities held in another time unit, compensated by xi
+                            xis += [tuple(XI_EXTREME[0][:n]), tuple(XI_EXTREME[1][:n])]
+                        for xi in xis:
                             yield {
                                 "part": "gauge", "spec": spec, "ids": IDS[:n], "pop": pop, "xi": list(xi),
                                 "tau": TAUS[tau_i][:n], "sources": sources_alt(n, ns, src_i) if ns else None,
@@ -494,6 +499,7 @@ A_LOG_V0 = [-3.5, -2.5, -1.0]
 A_LOG_V0_SLOW = [-14.0, -12.0, -9.0]
 A_LOG_V0_MIXED = [-13.0, -6.0, 2.0]
 A_LOG_G = [-0.5, 0.5, 1.5]
+A_LOG_G_EXTREME = [-7.0, 0.0, 7.0]
 A_G_LIN = [0.0, 0.3, 0.8]
 A_DELTA = [-0.5, 0.0, 0.8]
 A_BETA = [-1.0, 0.0, 0.5]
@@ -557,6 +563,13 @@ def ortho_points(spec, tier):
                 continue
             for lg in itertools.product(pos_alpha, repeat=dim):
                 yield {"log_v0": list(lv), pos_name: list(lg)}
+    if kind != "linear" and dim <= 3:
+        # positions next to the floor / ceiling of a logistic curve for some features and mid-range for others: the metric
+        # tensor then differs by several orders of magnitude between features (ratio of its squares above 1e5)
+        for lv in itertools.product(A_LOG_V0[:2], repeat=dim):
+            for lg in itertools.product(A_LOG_G_EXTREME, repeat=dim):
+                if len(set(lg)) > 1:
+                    yield {"log_v0": list(lv), pos_name: list(lg)}
 
 
 def ortho_cases(spec, tier):
